@@ -46,6 +46,35 @@ def _seed_ok(t) -> bool:
     return T.is_const(t) and isinstance(t[1], int) and not isinstance(t[1], bool)
 
 
+def _seed_term_ok(fx, p, t, f, depth):
+    """Is term t, evaluated in function f, a fixed integer on every call path?  Parameters are followed to
+    their default and through every package call site (bounded)."""
+    if _seed_ok(t):
+        return True, f'constant {t[1]}'
+    if tag(t) == 'p' and depth < 4:
+        name = t[1]
+        d = param_default(f, name)
+        has_default = d is not None
+        if has_default and not (isinstance(d, ast.Constant) and isinstance(d.value, int)
+                                and not isinstance(d.value, bool)):
+            return False, f'parameter {name!r} defaults to {ast.unparse(d)}'
+        sites = fx.sites.get(f.qname, [])
+        if not has_default and not sites:
+            return False, f'parameter {name!r} has no default and no package caller fixes it'
+        for caller, ce in sites:
+            bound = fx._bind(f, ce.call[2], ce.call[3])
+            v = bound.get(name)
+            if v is None:
+                if not has_default:
+                    return False, f'{caller} does not pass {name!r}'
+                continue
+            ok, why = _seed_term_ok(fx, p, v, p.funcs[caller], depth + 1)
+            if not ok:
+                return False, f'{caller} passes {T.show(v, maxlen=40)} for {name!r} ({why})'
+        return True, f'parameter {name!r}' + (f' default {ast.unparse(d)}' if has_default else ' fixed by its callers')
+    return False, f'{T.show(t, maxlen=60)} is not an integer constant'
+
+
 def explicit_random_state(ctx, rule='C09-R1'):
     fx = effects(ctx)
     p = ctx.project
@@ -69,18 +98,7 @@ def explicit_random_state(ctx, rule='C09-R1'):
                           'NumPy generator, results depend on what ran before',
                           instance=f'{head} in {q}')
             continue
-        ok = _seed_ok(rs)
-        why = ''
-        if tag(rs) == 'p':
-            d = param_default(f, rs[1])
-            ok = isinstance(d, ast.Constant) and isinstance(d.value, int) and not isinstance(d.value, bool)
-            why = f'parameter {rs[1]!r} default {ast.unparse(d) if d is not None else "<none>"}'
-            # every package call site must leave it alone or pass an integer constant
-            for caller, ce in fx.sites.get(q, []):
-                v = kwarg(ce.call, rs[1])
-                if v is not None and not _seed_ok(v):
-                    ok = False
-                    why = f'{caller} passes {T.show(v)} for {rs[1]!r}'
+        ok, why = _seed_term_ok(fx, p, rs, f, 0)
         ctx.check(ok, rule, q, e.node, e.loc(),
                   f'random_state of {head} is {T.show(rs)} ({why}): not a fixed integer on every call path',
                   instance=f'{head}(random_state={T.show(rs)}) in {q}', detail=why)
@@ -114,8 +132,10 @@ def rng_confinement(ctx, rule='C09-R2'):
 
     def protected(e) -> bool:
         for w in e.withs:
-            if tag(w) == 'call' and w[1] == ('g', TMP_SEED) and w[2] and _seed_ok(w[2][0]):
-                return True
+            if tag(w) == 'call' and w[1] == ('g', TMP_SEED):
+                seed = w[2][0] if w[2] else dict(w[3]).get('seed')
+                if seed is not None and _seed_ok(seed):
+                    return True
         return False
     # unprotected consumers, propagated up the call graph
     unprot = {}
@@ -181,20 +201,23 @@ def tmp_seed_typestate(ctx, rule='C09-R3'):
                       instance='get_state -> seed -> yield -> set_state')
         return
     g, s, y = gets[0], seeds[0], yields[0]
+
+    def arg0(call, name):
+        return call[2][0] if call[2] else dict(call[3]).get(name)
     ctx.check(g.seq < s.seq, rule, TMP_SEED, s.node, s.loc(),
               'the generator is re-seeded before its state is saved: the saved state is the temporary one',
               instance='state saved before seeding')
     ctx.check(s.seq < y.seq, rule, TMP_SEED, y.node, y.loc(), 'body runs before the temporary seed is set',
               instance='seeded before the body')
-    ctx.check(s.call[2][:1] == (('p', f.params[0]),), rule, TMP_SEED, s.node, s.loc(),
-              f'np.random.seed is called with {T.show(s.call[2][0]) if s.call[2] else "nothing"}, not the '
+    ctx.check(arg0(s.call, 'seed') == ('p', f.params[0]), rule, TMP_SEED, s.node, s.loc(),
+              f'np.random.seed is called with {T.show(arg0(s.call, "seed"))}, not the '
               'requested seed', instance='seeded with the argument')
     # the yield is inside a try whose finally restores the saved state, unconditionally
     tnodes = [t for t, part in y.tries if part == 'body' and t.finalbody]
     ok_final = False
     for tnode in tnodes:
         for e in sets:
-            if (tnode, 'final') in e.tries and e.call[2] and e.call[2][0] == g.call \
+            if (tnode, 'final') in e.tries and arg0(e.call, 'state') == g.call \
                     and not [l for l in T.find(e.guard, lambda x: tag(x) == 'cmp')]:
                 ok_final = True
     ctx.check(ok_final, rule, TMP_SEED, y.node, y.loc(),
@@ -210,8 +233,8 @@ def tmp_seed_typestate(ctx, rule='C09-R3'):
                   instance='no raising statement between seed() and try')
     # set_state is not called anywhere else with something else
     for e in sets:
-        ctx.check(e.call[2] and e.call[2][0] == g.call, rule, TMP_SEED, e.node, e.loc(),
-                  f'set_state restores {T.show(e.call[2][0]) if e.call[2] else "nothing"}, not the saved state',
+        ctx.check(arg0(e.call, 'state') == g.call, rule, TMP_SEED, e.node, e.loc(),
+                  f'set_state restores {T.show(arg0(e.call, "state"))}, not the saved state',
                   instance='set_state(saved state)')
 
 
